@@ -1300,7 +1300,25 @@ class Program:
         return sorted(self.by_crate)
 
     def fn(self, name):
-        return self.fns.get(name)
+        """the function with this definition path; when it is gone, the one product function of the acb crate with the same final
+        name (a public function keeps its name when it is moved to another module; its definition path does not)"""
+        f = self.fns.get(name)
+        if f is not None or name.startswith('<') or '::' not in name:
+            return f
+        last = name.rsplit('::', 1)[1]
+        if last.startswith('{'):
+            return None
+        key = ('moved', name)
+        cache = self.__dict__.setdefault('_fn_fallback', {})
+        if key not in cache:
+            owner = name.rsplit('::', 2)[-2] if name.count('::') >= 2 else ''
+            cands = [g for n, g in self.fns.items() if n.endswith('::' + last) and g.kind in ('Fn', 'AssocFn') and g.crate.startswith('acb') and
+                     not is_testsupport(n)]
+            # an associated function keeps its type: `Type::name`
+            if owner and owner[:1].isupper():
+                cands = [g for g in cands if g.name.endswith('::%s::%s' % (owner, last))]
+            cache[key] = cands[0] if len(cands) == 1 else None
+        return cache[key]
 
     def resolve(self, callee, from_crate):
         """Fn for a callee def path as seen from `from_crate`, or None for external items"""
